@@ -264,3 +264,27 @@ Fixpoint render_plain (c : fconf) (id : N) (recs : list record) : str :=
   | r :: tl =>
       opt_str (format_record true c id (r_meta r) (opt_str (get_message r))) ++ 10 :: render_plain c (id + 1) tl
   end.
+
+(* ---- enable_basic_logging: the `mode` argument ----
+   `if mode.lower() not in ("write", "append"): raise ScrapliException` ;
+   `file_mode = "a" if mode.lower() == "append" else "w"` — the spelling is lower-cased BOTH for the validation and for
+   the choice of the file mode (str.lower on the code points: no character outside A-Z lower-cases to a letter of
+   "write" / "append", so lower_byte decides the same strings).  Nothing is stripped.
+   None: ScrapliException before any handler is built or any file opened. *)
+Definition mode_write : str := [119; 114; 105; 116; 101].
+Definition mode_append : str := [97; 112; 112; 101; 110; 100].
+Definition mode_of (m : str) : option bool :=
+  let l := lower m in
+  if beq l mode_write then Some false else if beq l mode_append then Some true else None.
+
+(* the variant that validates the lower-cased spelling but chooses the file mode from the RAW string (anything but
+   exactly "append" opens with "w") — used only to show that the theorem notices it *)
+Definition mode_of_raw (m : str) : option bool :=
+  let l := lower m in
+  if beq l mode_write || beq l mode_append then Some (beq m mode_append) else None.
+
+Definition run_basic (buffered : bool) (c : hconf) (existing : str) (mode : str) (recs : list record) : option hstate :=
+  match mode_of mode with
+  | None => None
+  | Some a => Some (run_handler buffered c existing a recs)
+  end.
